@@ -393,6 +393,12 @@ serve:
   decision:
     timeout: {read: 1h30m}
 `,
+		// C20-F1f: the shared ServiceConfig struct is wider than the schema per service
+		"decision_cors": `
+serve:
+  decision:
+    cors: {allowed_origins: [example.org]}
+`,
 		// auditor's A2: mechanisms without finalizers
 		"mechanisms_without_finalizers": `
 mechanisms:
